@@ -403,6 +403,11 @@ fn build_vec<S: ConcurrentStream<Item = It> + 'static>(src: S, id: usize, term: 
 // ------------------------------------------------------------------------------------------------
 
 pub fn run(prop: &str, thorough: bool, case_seed: u64, sub: u64) -> ExecOut {
+    run_fault(prop, thorough, case_seed, sub, None)
+}
+
+/// `cancel`: Some(k) = drop the operation after exactly k polls (systematic sweep); None = as generated
+pub fn run_fault(prop: &str, thorough: bool, case_seed: u64, sub: u64, cancel: Option<usize>) -> ExecOut {
     reset(Src::Rng(case_seed), true);
     let _ = sub;
     let c02 = prop == "C02";
@@ -513,7 +518,13 @@ pub fn run(prop: &str, thorough: bool, case_seed: u64, sub: u64) -> ExecOut {
             None
         }
     };
-    let cancel_at = w(|w| if w.chance(if c02 { 40 } else { 15 }) { Some(w.below(9)) } else { None });
+    // (always draw, so that the schedule that follows does not depend on whether a sweep overrides the point)
+    let drawn = w(|w| if w.chance(if c02 { 40 } else { 15 }) { Some(w.below(9)) } else { None });
+    let cancel_at = match cancel {
+        Some(k) if k == usize::MAX => None,
+        Some(k) => Some(k),
+        None => drawn,
+    };
     let mut result: Option<CoRes> = None;
     let mut polls = 0usize;
     let mut steps = 0usize;
